@@ -43,7 +43,7 @@ var (
 	strVocab  = []string{"alpha", "Beta", "gamma delta", "x", "", "Ünï-cödé", "a.b*c", "42", "3.14", "true", "2020-02-29", "official", "home", "O'Neil", "tab\there"}
 	codeVocab = []string{"official", "usual", "home", "work", "phone", "email", "final", "mg", "kg", "cm", "a", "b", "c"}
 	uriVocab  = []string{"http://example.org/a", "http://example.org/b", "urn:uuid:53fefa32-fcbb-4ff8-8a92-55ee120877b7", "http://loinc.org", "http://unitsofmeasure.org", "http://hl7.org/fhir/StructureDefinition/ext-1"}
-	idVocab   = []string{"p1", "p2", "obs-1", "enc1", "a1b2", "x"}
+	idVocab   = []string{"p1", "p2", "obs-1", "enc1", "a1b2", "x", "#med1"}
 	extURLs   = []string{"http://example.org/ext/a", "http://example.org/ext/b", "http://hl7.org/fhir/StructureDefinition/ext-1"}
 	decVocab  = []string{"0", "1", "1.0", "1.50", "-2.25", "100", "0.001", "3.14159", "1e2", "12345.678"}
 	tzVocab   = []string{"Z", "UTC", "+00:00", "-03:30", "-02:30", "+05:30", "+12:45", "+13:45", "+01:00", "-05:00", "+10:30", "+11:00", "", "GMT", "NST", "IST", "EST"}
@@ -69,6 +69,7 @@ var instantVocabSec = []int64{
 }
 
 type resGen struct {
+	inPrimList bool // filling an entry of a repeated primitive field
 	r        rng
 	maxDepth int
 	fill     float64 // base probability of populating an optional field
@@ -167,6 +168,15 @@ func (g *resGen) fillMessage(m protoreflect.Message, depth int) {
 	}
 }
 
+// nullProb: how often a string-valued primitive is generated without a value (more often for the
+// entries of a repeated primitive, where the position of the entry matters).
+func (g *resGen) nullProb() float64 {
+	if g.inPrimList {
+		return 0.15
+	}
+	return 0.02
+}
+
 func (g *resGen) fillField(m protoreflect.Message, fd protoreflect.FieldDescriptor, depth int) {
 	if fd.Kind() != protoreflect.MessageKind {
 		// only primitives wrappers carry scalar fields; they are handled in fillPrimitive
@@ -191,7 +201,9 @@ func (g *resGen) fillField(m protoreflect.Message, fd protoreflect.FieldDescript
 				continue
 			}
 			e := l.NewElement()
+			g.inPrimList = isPrimitiveDesc(fd.Message()) && n > 1
 			g.fillMessage(e.Message(), depth+1)
+			g.inPrimList = false
 			l.Append(e)
 		}
 		// duplicate a sibling sometimes: equal-but-distinct twins matter for identity searches
@@ -457,6 +469,23 @@ func (g *resGen) fillPrimitive(m protoreflect.Message, depth int) {
 			m.Set(vf, protoreflect.ValueOfEnum(vals.Get(k).Number()))
 		case protoreflect.Int64Kind:
 			m.Set(vf, protoreflect.ValueOfInt64(int64(g.r.n(1000))))
+		}
+	}
+	// a primitive without a value: FHIR JSON writes null in the value array and carries the rest
+	// in the underscore array ("given":[null,"Bea"], "_given":[{extension...},null]); in the protos
+	// that is an element with no value and the primitiveHasNoValue extension. It is an element
+	// like any other: it occupies an index.
+	if vf := d.Fields().ByName("value"); vf != nil && vf.Kind() == protoreflect.StringKind && name != "Xhtml" && g.r.p(g.nullProb()) {
+		if ef := d.Fields().ByName("extension"); ef != nil && ef.IsList() {
+			m.Clear(vf)
+			l := m.Mutable(ef).List()
+			e := l.NewElement().Message()
+			u := e.Mutable(e.Descriptor().Fields().ByName("url")).Message()
+			u.Set(u.Descriptor().Fields().ByName("value"), protoreflect.ValueOfString("https://g.co/fhir/StructureDefinition/primitiveHasNoValue"))
+			vx := e.Mutable(e.Descriptor().Fields().ByName("value")).Message()
+			b := vx.Mutable(vx.Descriptor().Fields().ByName("boolean")).Message()
+			b.Set(b.Descriptor().Fields().ByName("value"), protoreflect.ValueOfBool(true))
+			l.Append(protoreflect.ValueOfMessage(e))
 		}
 	}
 	// primitive extensions / element ids, rarely
